@@ -43,6 +43,10 @@ R.invariant(
         "self._buffer_start + len(self._buffer) == self.highest_offset",
         # a final size fixed by a FIN is never above the highest offset seen
         "self.g_reset or self._final_size is None or self._final_size <= self.highest_offset",
+        # once every byte up to the final size has been delivered the receive half is finished (the end marker was handed
+        # out by the call that got there) - lets the connection recognise a repeated end marker (C01 'at most once')
+        "implies(self._final_size is not None and self._buffer_start == self._final_size, self.is_finished)",
+        "implies(self.g_reset, self.is_finished)",
     ],
 )
 
